@@ -35,6 +35,18 @@ pub fn generate(ctx: &mut Ctx) {
         }
         bi += 1;
     }
+    if !ctx.tiny() {
+        for len in gen::sweep_lengths() {
+            if ctx.mine(bi) {
+                for iri in [false, true] {
+                    for s in gen::length_sweep_refs(len, iri) {
+                        ctx.run(Case::new("ref").arg(s.as_bytes()));
+                    }
+                }
+            }
+            bi += 1;
+        }
+    }
     let n = ctx.random_budget(240, 240_000, 3_000_000);
     for i in 0..n {
         let mut rng = ctx.rng("ref", i);
